@@ -22,8 +22,16 @@ import (
 	"strconv"
 	"strings"
 	"sync"
+	"syscall"
 	"time"
 )
+
+// RealNow is the wall clock even inside a testing/synctest bubble (where time.Now is virtual).
+func RealNow() time.Time {
+	var tv syscall.Timeval
+	_ = syscall.Gettimeofday(&tv)
+	return time.Unix(tv.Sec, tv.Usec*1000)
+}
 
 // ---------------------------------------------------------------- choice tape
 
@@ -109,7 +117,7 @@ type Report struct {
 
 func NewReport(property, harness string) *Report {
 	return &Report{Property: property, Harness: harness, Exhaustive: true, BoundDone: map[string]int{},
-		Counters: map[string]int64{}, distinct: map[uint64]struct{}{}, vioSeen: map[string]int{}, start: time.Now()}
+		Counters: map[string]int64{}, distinct: map[uint64]struct{}{}, vioSeen: map[string]int{}, start: RealNow()}
 }
 
 func Hash(s string) uint64 { h := fnv.New64a(); h.Write([]byte(s)); return h.Sum64() }
@@ -120,8 +128,9 @@ func (r *Report) Outcome(s string) {
 	r.distinct[Hash(s)] = struct{}{}
 	r.mu.Unlock()
 }
+
 // AddDistinct adds n cases that are distinct by construction (enumerated without repetition).
-func (r *Report) AddDistinct(n int64) { r.mu.Lock(); r.distinctAdd += n; r.mu.Unlock() }
+func (r *Report) AddDistinct(n int64)        { r.mu.Lock(); r.distinctAdd += n; r.mu.Unlock() }
 func (r *Report) Count(name string, d int64) { r.mu.Lock(); r.Counters[name] += d; r.mu.Unlock() }
 func (r *Report) Cap(s string) {
 	r.mu.Lock()
@@ -169,7 +178,7 @@ func (r *Report) Write() {
 	r.mu.Lock()
 	defer r.mu.Unlock()
 	r.Distinct = int64(len(r.distinct)) + r.distinctAdd
-	r.WallS = time.Since(r.start).Seconds()
+	r.WallS = RealNow().Sub(r.start).Seconds()
 	b, err := json.MarshalIndent(r, "", " ")
 	if err != nil {
 		panic(err)
@@ -241,13 +250,13 @@ func ReplayCase(v any) bool {
 func Deadline(quick, thorough time.Duration) time.Time {
 	if s := os.Getenv("VERIF_BUDGET_S"); s != "" {
 		if n, err := strconv.Atoi(s); err == nil {
-			return time.Now().Add(time.Duration(n) * time.Second)
+			return RealNow().Add(time.Duration(n) * time.Second)
 		}
 	}
 	if Thorough() {
-		return time.Now().Add(thorough)
+		return RealNow().Add(thorough)
 	}
-	return time.Now().Add(quick)
+	return RealNow().Add(quick)
 }
 
 // ---------------------------------------------------------------- DFS with deviation bound
@@ -384,7 +393,7 @@ func Explore(rep *Report, o ExploreOpts, run func(prefix []int) Exec) ExploreSta
 					}()
 				}
 				for _, it := range batch {
-					if (o.MaxExec > 0 && st.Executions >= o.MaxExec) || (!o.Deadline.IsZero() && time.Now().After(o.Deadline)) {
+					if (o.MaxExec > 0 && st.Executions >= o.MaxExec) || (!o.Deadline.IsZero() && RealNow().After(o.Deadline)) {
 						st.Capped = true
 						break
 					}
@@ -394,7 +403,7 @@ func Explore(rep *Report, o ExploreOpts, run func(prefix []int) Exec) ExploreSta
 				wg.Wait()
 			} else {
 				for _, it := range batch {
-					if (o.MaxExec > 0 && st.Executions >= o.MaxExec) || (!o.Deadline.IsZero() && time.Now().After(o.Deadline)) {
+					if (o.MaxExec > 0 && st.Executions >= o.MaxExec) || (!o.Deadline.IsZero() && RealNow().After(o.Deadline)) {
 						st.Capped = true
 						break
 					}
@@ -464,7 +473,7 @@ func BFS(rep *Report, o BFSOpts, step func(path []int) (key string, viol []Viola
 		}
 		var next [][]int
 		for _, path := range frontier {
-			if !o.Deadline.IsZero() && time.Now().After(o.Deadline) {
+			if !o.Deadline.IsZero() && RealNow().After(o.Deadline) {
 				st.States = len(seen)
 				st.Depth = depth
 				return st
@@ -507,4 +516,90 @@ func SortedKeys[V any](m map[int]V) []int {
 	}
 	sort.Ints(ks)
 	return ks
+}
+
+// ---------------------------------------------------------------- BFS with snapshots (BFS2)
+
+// Model describes an explicit-state search over real objects that can be snapshotted with Clone.
+type Model[S any] struct {
+	NSym int
+	// Init builds fresh real objects in their initial state.
+	Init func() (S, string)
+	// Step applies symbol sym to a PRIVATE copy of s (the search clones before calling) and returns
+	// the canonical key of the resulting state plus oracle violations of this transition.
+	Step func(s S, path []int, sym int) (key string, viol []Violation)
+	// Clone snapshots a state.
+	Clone func(s S) S
+	// Replay (optional but recommended) replays a whole path on fresh objects from scratch and returns
+	// the resulting canonical key: every newly discovered state is validated against it, so the
+	// snapshot/restore abstraction is checked on the shortest path to every state.
+	Replay func(path []int) string
+	// Terminal reports states from which no transitions are explored.
+	Terminal func(key string) bool
+}
+
+type BFS2Stats struct {
+	States, Depth int
+	Transitions   int64
+	Validated     int64
+	Closed        bool
+}
+
+func BFS2[S any](rep *Report, o BFSOpts, m Model[S]) BFS2Stats {
+	st := BFS2Stats{}
+	type node struct {
+		s    S
+		path []int
+	}
+	seen := map[string]struct{}{}
+	s0, k0 := m.Init()
+	seen[k0] = struct{}{}
+	frontier := []node{{s0, nil}}
+	depth := 0
+	for len(frontier) > 0 {
+		if o.MaxDepth > 0 && depth >= o.MaxDepth {
+			st.States, st.Depth = len(seen), depth
+			return st
+		}
+		var next []node
+		for _, n := range frontier {
+			if !o.Deadline.IsZero() && RealNow().After(o.Deadline) {
+				st.States, st.Depth = len(seen), depth
+				return st
+			}
+			for sym := 0; sym < m.NSym; sym++ {
+				c := m.Clone(n.s)
+				k, viol := m.Step(c, n.path, sym)
+				st.Transitions++
+				for _, v := range viol {
+					rep.Violate(v)
+				}
+				if len(viol) > 0 {
+					continue
+				}
+				if _, ok := seen[k]; ok {
+					continue
+				}
+				if o.MaxStates > 0 && len(seen) >= o.MaxStates {
+					st.States, st.Depth = len(seen), depth+1
+					return st
+				}
+				seen[k] = struct{}{}
+				np := append(append(make([]int, 0, len(n.path)+1), n.path...), sym)
+				if m.Replay != nil {
+					if rk := m.Replay(np); rk != k {
+						rep.HarnessError(fmt.Sprintf("snapshot/replay mismatch on path %v:\n snapshot: %s\n replay:   %s", np, k, rk))
+					}
+					st.Validated++
+				}
+				if m.Terminal == nil || !m.Terminal(k) {
+					next = append(next, node{c, np})
+				}
+			}
+		}
+		frontier = next
+		depth++
+	}
+	st.States, st.Depth, st.Closed = len(seen), depth, true
+	return st
 }
